@@ -279,9 +279,13 @@ type absKey struct{ seq, state, data int }
 type absRing struct {
 	keys    []absKey
 	current int
+	missing bool // the ring file does not exist
 }
 
 func (r absRing) String() string {
+	if r.missing {
+		return "MISSING"
+	}
 	var ks []string
 	for _, k := range r.keys {
 		ks = append(ks, fmt.Sprintf("%d.%d.%d", k.seq, k.state, k.data))
